@@ -802,9 +802,19 @@ class SliceIndexer(ShapedSliceIndexer):
             return None
 
         slc = self._slice
-        if slc.stop is None and slc.step < 0:  # special backwards indexing case
-            self._shaped_inst = \
-                ShapedSliceIndexer(slc)
+        if slc.step < 0:
+            if slc.stop is None and (slc.start is None or slc.start >= 0):
+                # special backwards indexing case
+                self._shaped_inst = ShapedSliceIndexer(slc)
+            else:
+                # slice.indices uses -1 to mean 'before the first entry' when the step is
+                # negative, which can't be passed back into a slice.
+                start, stop, step = slc.indices(self._src_shape[0])
+                if start < 0:  # empty
+                    start = stop = 0
+                elif stop < 0:
+                    stop = None
+                self._shaped_inst = ShapedSliceIndexer(slice(start, stop, step))
         elif (slc.start is not None and slc.start < 0) or slc.stop is None or slc.stop < 0:
             self._shaped_inst = \
                 ShapedSliceIndexer(slice(*self._slice.indices(self._src_shape[0])))
